@@ -42,11 +42,22 @@ def main(tier):
     chk.extra["cfg"] = cfg
     atoms = [(d, th) for d, th in pool.atom_thunks() if not d.startswith(("all ", "any "))]
     items, expected = [], {}
+    import copy
+
     for d, th in atoms:
         for name, lhs, exp in laws(th):
             key = f"{name}   with p = {d}"
             items.append((key, lhs))
             expected[key] = exp
+            # the same law over equal but distinct objects (a deep copy: the constants are then not the module's
+            # always_true_p / always_false_p objects, e.g. after a pickle round trip or AlwaysTruePredicate())
+            try:
+                twin = copy.deepcopy(lhs)
+            except Exception:  # noqa: BLE001
+                continue
+            key2 = f"{name}   with p = {d}   [deep copy: equal, distinct objects]"
+            items.append((key2, twin))
+            expected[key2] = exp
     cur = {}
 
     def judge_factory():
@@ -63,7 +74,7 @@ def main(tier):
 
     optcorr.run_objects(chk, "opt/laws", items, cfg, judge_factory())
     chk.rule = (
-        "28 law instances (both operand orders) for each of %d atoms = every exported atom kind at 2-4 parameter choices, incl. opaque ones "
+        "28 law instances (both operand orders), each also as a deep copy (equal but distinct objects, constants included), for each of %d atoms = every exported atom kind at 2-4 parameter choices, incl. opaque ones "
         "(has_key, has_length, regex, lazy, this, root, tee, property, comp, tuple/set/dict 'of', function atoms over built-ins): model optimizeT vs "
         "predicate.optimize on the law's left-hand side, and the result compared (==) with the result the property names. "
         "non-trivial = distinct left-hand sides that optimize changes." % len(atoms)
